@@ -7,6 +7,7 @@ import (
 	"encoding/hex"
 	"fmt"
 	"math/rand"
+	"reflect"
 	"strings"
 
 	"github.com/protolambda/zrnt/eth2/beacon/altair"
@@ -16,6 +17,7 @@ import (
 	"github.com/protolambda/zrnt/eth2/beacon/deneb"
 	"github.com/protolambda/zrnt/eth2/beacon/electra"
 	"github.com/protolambda/zrnt/eth2/beacon/phase0"
+	"github.com/protolambda/zrnt/eth2/configs"
 	"github.com/protolambda/ztyp/codec"
 	"github.com/protolambda/ztyp/tree"
 	"github.com/protolambda/ztyp/view"
@@ -119,6 +121,13 @@ func (m *mutator) step(st common.BeaconState) (label string) {
 			rng.Read(f.CurrentVersion[:])
 			f.Epoch = common.Epoch(rndU64(rng))
 			st.SetFork(f)
+		}},
+		{"set_header_then_scribble", func() {
+			h := &common.BeaconBlockHeader{Slot: common.Slot(rndU64(rng)), ProposerIndex: common.ValidatorIndex(rndU64(rng)),
+				ParentRoot: rndRoot(rng), StateRoot: rndRoot(rng), BodyRoot: rndRoot(rng)}
+			st.SetLatestBlockHeader(h)
+			st.HashTreeRoot(tree.GetHashFn()) // fill the caches
+			scribble(reflect.ValueOf(h), 0)   // the caller keeps using its struct
 		}},
 		{"set_latest_block_header", func() {
 			st.SetLatestBlockHeader(&common.BeaconBlockHeader{Slot: common.Slot(rndU64(rng)), ProposerIndex: common.ValidatorIndex(rndU64(rng)),
@@ -356,6 +365,25 @@ func (m *mutator) step(st common.BeaconState) (label string) {
 			}},
 		)
 	}
+	// any fork: a payload header handed to the state, then scribbled over by the caller
+	if m := reflect.ValueOf(st).MethodByName("SetLatestExecutionPayloadHeader"); m.IsValid() && m.Type().NumIn() == 1 {
+		ops = append(ops, op{"set_payload_header_then_scribble", func() {
+			h := reflect.New(m.Type().In(0).Elem())
+			scribble(h, 0) // all-ones content …
+			if f := h.Elem().FieldByName("ExtraData"); f.IsValid() {
+				f.Set(reflect.MakeSlice(f.Type(), rng.Intn(33), 32))
+			}
+			for i := 0; i < h.Elem().NumField(); i++ {
+				if f := h.Elem().Field(i); f.Kind() == reflect.Array && f.Len() == 32 {
+					r := rndRoot(rng)
+					reflect.Copy(f, reflect.ValueOf(r[:]))
+				}
+			}
+			m.Call([]reflect.Value{h})
+			st.HashTreeRoot(tree.GetHashFn())
+			scribble(h, 0)
+		}})
+	}
 	o := ops[rng.Intn(len(ops))]
 	func() {
 		defer func() {
@@ -511,6 +539,9 @@ func genState(o hreg.Opts, w *bufio.Writer) error {
 				o.Stats.Add("copies-at-end", fmt.Sprintf("%d", len(live)))
 			}
 		}
+	}
+	if err := genAliasing(o, w, rng, []preset{cfgs[0], {"minimal", cfgToken(configs.Minimal)}}); err != nil {
+		return err
 	}
 	o.Stats.Add("ops-hex-megabytes", fmt.Sprintf("%d", total*2>>20))
 	_ = total
